@@ -389,8 +389,12 @@ def _identity_disposition(call, par):
 SCENARIO = str(HERE / "c20_scenario.py")
 
 
-def run_scenario(what, hashseed="0", threads="1", force=None, timeout=600, extra=None):
+def run_scenario(what, hashseed="0", threads="1", force=None, timeout=600, extra=None, blas_follows_omp=False):
     env = dict(os.environ, PYTHONHASHSEED=str(hashseed), OMP_NUM_THREADS=str(threads), OPENBLAS_NUM_THREADS="1", MKL_NUM_THREADS="1")
+    if blas_follows_omp:
+        # what a user gets who sets OMP_NUM_THREADS only: the BLAS library of the array backend follows it
+        env.pop("OPENBLAS_NUM_THREADS", None)
+        env.pop("MKL_NUM_THREADS", None)
     if force:
         env["C20_FORCE_ORDER"] = force
     env.pop("PYTHONPATH", None)
@@ -1173,6 +1177,40 @@ class WannierSeed:
     def replay(self, wit):
         r = run_scenario("seedonly:get_wannier")
         return bool(r.get("differs")) or bool(r.get("crash")), dict(check="two calls with random_guess=True and the same seed", result=r)
+
+
+class BlasThreadsLargeArrays:
+    """BOUNDED: the same calculation on arrays above the threading threshold of the BLAS level-1 kernels (27000 grid points, 10521 coefficients) in separate
+    interpreters with OMP_NUM_THREADS = 1, 2, 4 (the BLAS library follows it): orbitals after four pccg steps, utils.dotprod and every energy contribution bit for bit."""
+
+    def run(self):
+        res = {t: run_scenario("large_arrays", threads=t, blas_follows_omp=True, timeout=900) for t in ("1", "2", "4")}
+        if any(r.get("crash") for r in res.values()):
+            return None, dict(crash={t: r.get("stderr", "")[-300:] for t, r in res.items() if r.get("crash")})
+        keys = sorted(k for k in res["1"] if k.startswith("bits:"))
+        differing = [k for k in keys if len({res[t].get(k) for t in res}) > 1]
+        cats = sorted({"orbitals" if k == "bits:orbitals" else "dotprod" if k == "bits:dotprod" else "energies" for k in differing})
+        return cats, dict(sizes=res["1"].get("str:sizes"), differing_keys=differing, values={k: {t: res[t].get(k) for t in res} for k in differing[:6]})
+
+    def __call__(self, ob, tier, seed):
+        from pycv.framework import BOUNDED_OK
+
+        cats, info = self.run()
+        if cats is None:
+            return Result(UNDECIDED, backend="native-interpreters", detail=f"scenario crashed: {info}")
+        if cats:
+            return Result(REFUTED, backend="native-interpreters", witness=dict(profile=f"differing=[{','.join(cats)}]", keys=info["differing_keys"]), replayed=True, replay_info=info,
+                          detail=f"results differ between OMP_NUM_THREADS = 1, 2, 4 on large arrays ({info['sizes']}): {info['differing_keys']}")
+        return Result(BOUNDED_OK, backend="native-interpreters", detail=f"bounded: ethane, {info['sizes']}: orbitals, dotprod and all energy contributions bit-identical for OMP_NUM_THREADS = 1, 2, 4")
+
+    def replay(self, wit):
+        cats, info = self.run()
+        return bool(cats), info
+
+
+register(Obligation(name="C20.interpreters.blas_threads_large_arrays", prop=PROP, engine="B", bounded=True, run=BlasThreadsLargeArrays(), budget={"quick": 600, "thorough": 900},
+                    functions=["eminus.utils:dotprod", "eminus.energies:get_E", "eminus.minimizer:pccg"],
+                    doc="BOUNDED: arrays above the BLAS threading threshold: orbitals, dotprod and energies bit for bit across OMP_NUM_THREADS = 1, 2, 4 in separate interpreters"))
 
 
 class WannierCallers:
